@@ -19,8 +19,8 @@ oracle:         (independent of the model; c18gen.visible reads the DESCRIPTION 
 containers:     block-level containers are part of the vocabulary: draw:frame (text box / image) and drawing shapes with
                 paragraphs as CHILDREN of office:text, sections, cells, text boxes, note bodies and pages; text:table-of-content
                 and the other six indexes (index title + body); text:numbered-paragraph.  The visible text inside them is
-                demanded like any other.  The losses the unchanged converters show there have signatures of their own
-                (c18gen.M_LOST, X_LOST) and are PENDING (counted, see PENDING below) until the integrator has decided.
+                demanded like any other.  A loss there has a signature of its own (c18gen.M_LOST, X_LOST: the classes
+                repaired by af61005 / e7e9e0f); the corpus keeps their minimal documents as regression inputs.
 """
 import os, io, json, shutil, tempfile, time, re, xml.parsers.expat
 from common import enc_str, dec_str
@@ -28,12 +28,14 @@ import c18gen
 
 UNIQ = re.compile(u'k[0-9]+z')
 
-# Losses of visible text that the UNCHANGED converters show on the block-level containers (frames / shapes that are children
-# of office:text, indexes, numbered paragraphs; paragraph text in front of a drawing shape) - found by the follow-up of
-# round 6, reported to the integrator, not yet decided (fix: commit or known finding).  Until then a failure with one of
-# these signatures is COUNTED (evidence: pending_<signature>) and does not fail the run; every other signature does.
-# Remove a signature here once /repo is repaired or the finding is registered in known-findings/C18.txt.
-PENDING = set(c18gen.M_LOST) | set(c18gen.X_LOST)
+# Signatures that are COUNTED (evidence: pending_<signature>) instead of failing the run: classes of losses found on the
+# unchanged tree and reported to the integrator, until they are repaired or registered as known findings.
+# The eight classes of the block-level containers (the other entries of c18gen.M_LOST, X_LOST: frames / shapes / indexes /
+# numbered paragraphs that the MoinMoin converter dropped, paragraph text in front of a drawing shape that the XHTML
+# converter purged) were repaired in /repo by af61005 and e7e9e0f and are ordinary failing signatures now.
+# Still open after af61005: draw:line and draw:g (a group of shapes) hold text too, but are not in odf2moinmoin's
+# CONTAINER_TAGS - a child of office:text is skipped, inside running text draw:g becomes ' {draw:g} ' and draw:line nothing.
+PENDING = set(['m-top-shape-unlisted', 'm-nested-shape-unlisted'])
 
 
 # ---------------------------------------------------------------- reading the converters' output (expat only)
@@ -703,7 +705,7 @@ CORPUS = [
         P(T(u'k8z'), ['note', 'footnote', u'1', [P(T(u'k9z')), ['frame', 'char', None, ['textbox', [P(T(u'k10z'))]]], P(T(u'k11z'))]])])),
     ('block-frame-in-sheet-cell', D([['table', u't', None, [[None, None]], [[None, [['cell', {'rs': None, 'cs': None, 'style': None},
         [P(T(u'k1z')), ['frame', None, None, ['textbox', [P(T(u'k2z'))]]], P(T(u'k3z'))]]]]], 0]], kind='sheet')),
-    # ... and the minimal witnesses of the PENDING classes (each loses k2z, or k1z in front of the shape)
+    # ... and the minimal witnesses of the classes M_LOST / X_LOST (before af61005 / e7e9e0f each lost k2z, or k1z in front of the shape)
     ('moin-top-frame', D([P(T(u'k1z')), ['frame', 'page', None, ['textbox', [P(T(u'k2z'))]]], P(T(u'k3z'))])),
     ('moin-top-shape', D([P(T(u'k1z')), ['shape', 'rect', 'page', None, [P(T(u'k2z'))]], P(T(u'k3z'))])),
     ('shape-in-paragraph', D([P(T(u'k1z'), ['shape', 'ellipse', 'char', None, [P(T(u'k2z'))]], T(u'k3z'))])),
@@ -713,6 +715,9 @@ CORPUS = [
     ('moin-top-numbered-paragraph', D([P(T(u'k1z')), ['numpar', u'L1', None, P(T(u'k2z'))], P(T(u'k3z'))])),
     ('moin-numbered-paragraph-in-cell', D([['table', u't', None, [[None, None]], [[None, [['cell', {'rs': None, 'cs': None, 'style': None},
         [P(T(u'k1z')), ['numpar', u'L1', 2, ['h', 2, None, [T(u'k2z')]]], P(T(u'k3z'))]]]]], 0]])),
+    ('moin-line-and-group', D([P(T(u'k1z'), ['shape', 'line', 'char', None, [P(T(u'k2z'))]], T(u'k3z')), ['shape', 'g', None, None, [P(T(u'k4z'))]],
+                               P(T(u'k5z'), ['shape', 'g', 'as-char', None, [P(T(u'k6z'))]], T(u'k7z')), ['shape', 'line', 'page', None, [P(T(u'k8z'))]],
+                               ['shape', 'circle', None, None, [P(T(u'k9z'))]]])),
     ('shapes-on-a-page', D([['page', u'pg', [['shape', 'custom', None, None, [P(T(u'k1z'))]], ['frame', None, None, ['textbox', [P(T(u'k2z'))]]],
                                               ['shape', 'rect', None, None, [P(T(u'k3z'))]]]]], kind='pres')),
 ]
